@@ -95,6 +95,67 @@ def run(prop, tier, seed, work):
         steps.append({"op": "gated", "writer": call({"s": e["s"], "byptr": e["byptr"]}), "probes": probes, "pause_ms": 40})
         sid = "C08-gated-%d" % k
         scen.append({"sid": sid, "prop": prop, "vals": vals, "steps": steps, "tags": ["gated", e["kind"]], "dkey": sid})
+    # failing decodes, alone and concurrently: a decode that fails inside a map's entry loop, then concurrent decodes of
+    # that map type; many goroutines reporting missing required fields of types they meet for the first time
+    for k in range(6 if quick else 120):
+        nm = lambda x: "%s%d" % (x, k)
+        rq = [field(1, "required", T("i32")), field(2, "required", T("string")), field(3, "required", T("i64")), field(4, "default", T("i16"))]
+        wq = [field(1, "optional", T("i32", True)), field(2, "optional", T("string", True)), field(3, "optional", T("i64", True)), field(4, "default", T("i16"))]
+        fd = {nm("FRq"): struct(rq), nm("FWRq"): struct(wq),
+              nm("FMp"): struct([field(1, "default", M(T("string"), ST(nm("FRq"), True))), field(2, "default", L(ST(nm("FRq"), True))), field(3, "default", M(T("i32"), T("string")))]),
+              nm("FWMp"): struct([field(1, "default", M(T("string"), ST(nm("FWRq"), True))), field(2, "default", L(ST(nm("FWRq"), True))), field(3, "default", M(T("i32"), T("string")))])}
+        nth = 4
+        for t in range(nth):
+            for j in range(5):
+                fd["FRq%d_%d_%d" % (k, t, j)] = struct([field(i + 1, "required", T("i32") if i % 2 else T("string")) for i in range(8)])
+        fd[nm("FWAll")] = struct([field(i + 1, "optional", T("i32", True) if i % 2 else T("string", True)) for i in range(8)])
+        U.with_defaults(fd)
+        defs.update(fd)
+        full = lambda a: {"f": {"1": {"p": 1, "v": U.be(a, 4)}, "2": {"p": 1, "v": list(("s%d" % a).encode())}, "3": {"p": 1, "v": U.be(a * 7, 8)}, "4": U.be(a % 100, 2)}, "unk": []}
+        part = lambda a: {"f": {"1": {"p": 1, "v": U.be(a, 4)}, "2": {"p": 0}, "3": {"p": 1, "v": U.be(a, 8)}, "4": [0, 1]}, "unk": []}
+        mp = lambda ents, items: {"f": {"1": {"nil": False, "ents": ents}, "2": {"nil": False, "items": items},
+                                        "3": {"nil": False, "ents": [[U.be(1, 4), list(b"x")]]}}, "unk": []}
+        vals = [mp([[list(b"a"), {"p": 1, "v": full(1)}], [list(b"b"), {"p": 1, "v": part(2)}], [list(b"c"), {"p": 1, "v": full(3)}]], [])]
+        steps = [{"op": "encode", "ty": nm("FWMp"), "v": 0, "buf": {"mode": "rel", "n": 0, "extra": 0}}]
+        for _ in range(3):
+            steps.append({"op": "decode", "ty": nm("FMp"), "from": 0, "dest": "fresh"})          # fails inside the map's entry loop
+        none = {"f": {str(i + 1): {"p": 0} for i in range(8)}, "unk": []}
+        some = {"f": {str(i + 1): ({"p": 1, "v": U.be(i, 4) if i % 2 else list(b"v")} if i % 3 else {"p": 0}) for i in range(8)}, "unk": []}
+        vals += [none, some]
+        threads = []
+        for t in range(nth):
+            good = mp([[list(("k%d_%d" % (t, e)).encode()), {"p": 1, "v": full(100 * t + e)}] for e in range(6)], [{"p": 1, "v": full(1000 * t + e)} for e in range(4)])
+            vals.append(good)
+            gi = len(vals) - 1
+            th = [{"op": "encode", "ty": nm("FWMp"), "v": gi, "buf": {"mode": "rel", "n": 0, "extra": 0}},
+                  {"op": "decode", "ty": nm("FMp"), "from": 0, "dest": "fresh"},
+                  {"op": "encode", "ty": nm("FWAll"), "v": 1, "buf": {"mode": "rel", "n": 0, "extra": 0}},
+                  {"op": "encode", "ty": nm("FWAll"), "v": 2, "buf": {"mode": "rel", "n": 0, "extra": 0}}]
+            for j in range(5):
+                th.append({"op": "decode", "ty": "FRq%d_%d_%d" % (k, t, j), "from": 2 + (j % 2), "dest": "fresh"})   # required fields missing
+            th.append({"op": "decode", "ty": nm("FMp"), "from": 0, "dest": "zero"})
+            threads.append(th)
+        steps.append({"op": "par", "threads": threads, "rounds": 2, "gomaxprocs": [2, 4, 16][k % 3]})
+        sid = "C08-failpar-%d" % k
+        scen.append({"sid": sid, "prop": prop, "vals": vals, "steps": steps, "tags": ["failing-decodes"], "dkey": sid})
+    # steady state on DIFFERENT registered types at the same time: whatever is remembered between calls (last type, last
+    # descriptor, scratch values) must not leak from one goroutine's call into another's
+    for k in range(3 if quick else 40):
+        g = graph(10000 + k)
+        U.with_defaults(g)
+        defs.update(g)
+        names = sorted(g.keys())
+        vals, pre, threads = [], [], []
+        for ti, ty in enumerate(names + names[:1]):
+            v = U.base_value({"k": "struct", "ptr": False, "s": ty}, defs, 3, k + ti)
+            vals.append(v)
+            pre.append({"op": "size", "ty": ty, "v": ti})
+            threads.append([{"op": "size", "ty": ty, "v": ti, "byval": bool(ti % 2)},
+                            {"op": "encode", "ty": ty, "v": ti, "byval": bool((ti + 1) % 2), "buf": {"mode": "rel", "n": 0, "extra": 0}},
+                            {"op": "decode", "ty": ty, "from": 1, "dest": "fresh", "orig": ti}])
+        steps = pre + [{"op": "par", "threads": threads, "rounds": 25, "gomaxprocs": [4, 16, 2][k % 3]}]
+        sid = "C08-steadymix-%d" % k
+        scen.append({"sid": sid, "prop": prop, "vals": vals, "steps": steps, "tags": ["steady-mix"], "dkey": sid})
     sv = U.base_value({"k": "struct", "ptr": False, "s": "Steady"}, defs, 2, 1)
     for k in range(ncopies):
         n = lambda s: "%s%d" % (s, k)
